@@ -58,13 +58,13 @@ BOUNDS = {
                               'strings with 5..12 tokens; 150 random G1 strings with multipliers',
               'two_level_strings': 'the same arrangements (<= 4 tokens) + 100 random, one fragment per node name',
               'positions': 'every node token / every edge / every fragment name / first and last fragment',
-              'fault_variants': {'dangling-ring': 5, 'duplicate-edge': 3, 'two-equals': 5, 'too-many-positional': 3,
+              'fault_variants': {'dangling-ring': 7, 'duplicate-edge': 3, 'two-equals': 5, 'too-many-positional': 3,
                                  'non-numeric': 8}},
     'thorough': {'base_strings': 'all arrangements of <= 5 node tokens, plain and with one ring / bond symbols; 2000 random G1 '
                                  'strings with 5..14 tokens; 2000 random G1 strings with multipliers',
                  'two_level_strings': 'the same arrangements (<= 5 tokens) + 1500 random, one fragment per node name',
                  'positions': 'every node token / every edge / every fragment name / first and last fragment',
-                 'fault_variants': {'dangling-ring': 5, 'duplicate-edge': 3, 'two-equals': 5, 'too-many-positional': 3,
+                 'fault_variants': {'dangling-ring': 7, 'duplicate-edge': 3, 'two-equals': 5, 'too-many-positional': 3,
                                     'non-numeric': 8}},
 }
 EXHAUSTIVE = {'quick': False, 'thorough': False}
@@ -157,7 +157,8 @@ def ring_fault_cases(ast, text):
     nt = _nontrivial(ast)
     digit, pct = _fresh_ids(ast)
     for i in range(len(flat)):
-        for sym, marker in (('', digit), ('=', digit), ('', pct), ('.', pct)):
+        zero = [('', '0'), ('', '%00')] if 0 not in {g1.ring_id(m) for nn in flat for _, m in nn['rings']} else []
+        for sym, marker in [('', digit), ('=', digit), ('', pct), ('.', pct)] + zero:      # ring index 0 is an index like any other
             a = g1.copy_ast(ast)
             n = g1.flat_nodes(a)[i]
             n['rings'] = g1._sorted_rings([[sym, marker]] + n['rings']) if not marker.startswith('%') else n['rings'] + [[sym, marker]]
